@@ -933,6 +933,22 @@ func (cb *ClusterBuilder) normalizeClusters(clusters []*cluster.Cluster) []*clus
 	return out
 }
 
+// normalizeClusterResources is normalizeClusters for the final list of CDS resources: for any resources
+// that share a name the first one is kept and the others are discarded.
+func (cb *ClusterBuilder) normalizeClusterResources(resources model.Resources) model.Resources {
+	have := sets.NewWithLength[string](len(resources))
+	out := resources[:0]
+	for _, r := range resources {
+		if !have.InsertContains(r.Name) {
+			out = append(out, r)
+		} else {
+			cb.req.Push.AddMetric(model.DuplicatedClusters, r.Name, cb.proxyID,
+				fmt.Sprintf("Duplicate cluster %s found while pushing CDS", r.Name))
+		}
+	}
+	return out
+}
+
 // getAllCachedSubsetClusters either fetches all cached clusters for a given key (there may be multiple due to subsets)
 // and returns them along with allFound=True, or returns allFound=False indicating a cache miss. In either case,
 // the cache tokens are returned to allow future writes to the cache.
